@@ -1224,10 +1224,18 @@ pub fn sample_models() -> Vec<String> {
   h.bkms[0].kind = Kind::Invocation;
   h.bkms[1].kind = Kind::Context;
   out.push(h.model().to_xml());
-  // a decision service with input, encapsulated and output decisions and a caller
+  // decision services with input, encapsulated and output decisions and a caller of each style
   let cases = family_services(&PLAIN, false);
-  if let Some((s, _)) = cases.iter().rev().find(|(g, x)| g.svcs[0].outputs.len() == 2 && !g.svcs[0].input_decisions.is_empty() && !g.svcs[0].encapsulated.is_empty() && x.contains("through-knowledge-model")) {
-    out.push(s.model().to_xml());
+  let picks: [&dyn Fn(&Graph, &str) -> bool; 4] = [
+    &|g, x| !g.svcs[0].input_decisions.is_empty() && !g.svcs[0].encapsulated.is_empty() && x.contains("called-literal"),
+    &|g, x| g.svcs[0].outputs.len() == 2 && !g.svcs[0].input_decisions.is_empty() && x.contains("through-knowledge-model") && !x.contains("invocation"),
+    &|g, x| g.svcs[0].outputs.len() == 1 && !g.svcs[0].input_decisions.is_empty() && x.contains("called-invocation") && x.contains("direct"),
+    &|g, x| g.svcs[0].outputs.len() == 3 && x.contains("by-name"),
+  ];
+  for pick in picks {
+    if let Some((s, _)) = cases.iter().rev().find(|(g, x)| pick(g, x)) {
+      out.push(s.model().to_xml());
+    }
   }
   if let Some((s, _)) = family_services(&COLLIDING, false).into_iter().find(|(g, x)| g.svcs[0].outputs.len() == 1 && !g.svcs[0].encapsulated.is_empty() && x.contains("called-invocation")) {
     out.push(s.model().to_xml());
